@@ -79,6 +79,8 @@ type intraProxyStreamSender struct {
 	sourceShardID      history.ClusterShardID
 	streamID           string
 	sourceStreamServer adminservice.AdminService_StreamWorkflowReplicationMessagesServer
+	// shutdown ends the stream handler this sender belongs to (set by Run before registering)
+	shutdown channel.ShutdownOnce
 }
 
 func (s *intraProxyStreamSender) Run(
@@ -108,6 +110,7 @@ func (s *intraProxyStreamSender) Run(
 	}
 
 	// register this sender so sendMessages can use it
+	s.shutdown = shutdownChan
 	s.shardManager.GetIntraProxyManager().RegisterSender(s.peerNodeName, s.targetShardID, s.sourceShardID, s)
 	defer s.shardManager.GetIntraProxyManager().UnregisterSender(s.peerNodeName, s.targetShardID, s.sourceShardID, s)
 
@@ -841,6 +844,13 @@ func (m *intraProxyManager) closePeerShardLocked(peer string, ps *peerState, key
 	st := GetGlobalStreamTracker()
 	srvID := BuildIntraProxySenderStreamID(peer, key.targetShard, key.sourceShard)
 	st.UnregisterStream(srvID)
+	// Dropping a sender's registration must also end its stream. The peer only checks that it
+	// still has a receiver for the pair; if the stream stayed open it would go on reusing it,
+	// nothing would register a sender for it again (e.g. when the source shard's stream comes
+	// back on this instance), and the pair would stay cut off.
+	if snd, ok := ps.senders[key]; ok && snd != nil && snd.shutdown != nil {
+		snd.shutdown.Shutdown()
+	}
 	delete(ps.senders, key)
 }
 
